@@ -438,6 +438,10 @@ def _other_transform(rng, kw):
 def _with_history(build, ds, dtype, raster, kw):
     rng = _HIST_RNG
     u = rng.random()
+    if "cache" not in kw and os.environ.get("PF_NO_HISTORY") != "1" and rng.random() < 0.2:
+        # "whether caching is enabled" is unobservable (C12): a fifth of the objects is built with cache=False
+        kw = dict(kw, cache=False)
+        HISTORY_STATS["cache_off"] = HISTORY_STATS.get("cache_off", 0) + 1
     plain = not any(k in kw for k in ("idxs_pit", "idxs_seq", "nnodes", "idxs_outlet")) and kw.get("cache", True)
     if os.environ.get("PF_NO_HISTORY") == "1" or u < 0.55 or not plain:
         HISTORY_STATS["fresh"] += 1
